@@ -36,6 +36,9 @@ type wEntry struct {
 
 // connState is what the harness knows about one connection object.
 type connState struct {
+	held       []byte // slice returned by the last Next/Peek, valid until the next read-type call
+	heldOff    int
+	heldWhat   string
 	idx        int
 	cp         *ConnPlan
 	c          gnet.Conn
@@ -143,6 +146,7 @@ type World struct {
 	stopEverAsked    bool
 	started          bool
 	regLost          []string
+	stopCtxErrSeen   bool
 	lcSnap           map[int]map[string]int
 	udp              *udpState
 	udpDrained       bool
@@ -262,6 +266,8 @@ func (w *World) nonTrivial() bool {
 		return w.probes["lb-sequences-checked"]+w.probes["lc-checks"] > 0 && w.openedN > 1
 	case "C17":
 		return w.probes["address-checks"] > 1
+	case "C12":
+		return w.probes["held-slice-rechecks"] > 0
 	case "C18":
 		n := 0
 		for _, v := range w.faults {
@@ -885,6 +891,7 @@ func (w *World) onQuiescent(idle int) int {
 		}
 		if w.shutdownIdle > 12 {
 			w.violate("C06", "hang", "shutdown was requested (%s) but Run has not returned after the system went quiet %d times; alive: %v", w.p.Stop.Source, w.shutdownIdle, w.s.Alive())
+			w.stopCtxHang()
 			w.ph = phDone
 			return vsched.QStop
 		}
